@@ -44,6 +44,7 @@ func cmdVerify(args []string) {
 	funcs := fs.String("func", "", "comma-separated contract keys (default: every function with a contract)")
 	timeout := fs.Int("timeout", 10, "per-obligation solver timeout (s)")
 	keep := fs.Bool("keep", false, "keep SMT files")
+	seedFlag := fs.Int("seed", 0, "solver seed")
 	verbose := fs.Bool("v", false, "list every obligation")
 	fs.Parse(args)
 	prog, err := LoadProg(repoRoot(), strings.Split(*pkg, ","), verifRoot()+"/contracts/lib.contracts")
@@ -98,7 +99,7 @@ func cmdVerify(args []string) {
 				fmt.Printf("%-50s trusted: %s\n", res.Name, res.Trusted)
 				continue
 			}
-			Discharge(res.Obls, work+"/"+sanitize(res.Name), *timeout, 0, 8)
+			DischargeAll(res.Obls, work+"/"+sanitize(res.Name), *timeout, *seedFlag, 8)
 			ok, fail := 0, 0
 			for _, o := range res.Obls {
 				good := (o.Status == "unsat" && !o.ExpectSat) || (o.Status != "unsat" && o.ExpectSat)
@@ -108,7 +109,7 @@ func cmdVerify(args []string) {
 					fail++
 				}
 				if *verbose || !good {
-					fmt.Printf("    %-70s %-8s %-7s %5dms  %s  %s\n", o.Name, o.Status, o.Solver, o.Ms, o.Src, o.Desc)
+					fmt.Printf("    %-70s %-8s %-7s %5dms  %s  %s\n", o.Name, o.Status, o.Solver, o.Ms, o.Src, truncate(o.Desc, 90))
 					if !good && o.Status != "timeout" && o.Status != "unknown" {
 						for _, l := range strings.Split(strings.TrimSpace(o.Output), "\n") {
 							if len(l) > 200 {
